@@ -86,7 +86,7 @@ NFrames(b) == CASE b = "x-anim" -> 2 [] b = "x-anim-alpha" -> 3 [] OTHER -> 1
 
 Case(b, s) == [base |-> b, irr |-> s, chunks |-> Chunks(b, s), flags |-> Flags(b, s),
                trailing |-> "trailing" \in s,
-               anim |-> IsAnim(b), nframes |-> NFrames(b), loop |-> IF IsAnim(b) THEN 7 ELSE 0,
+               anim |-> IsAnim(b), nframes |-> NFrames(b), loop |-> IF IsAnim(b) THEN 32775 ELSE 0,
                alpha |-> BaseAlpha(b),
                \* every irregularity here leaves the headers mutually consistent (the C16 notion of well-formed)
                wellformed |-> TRUE]
